@@ -57,7 +57,11 @@ class Parser(Emitter):
             fn = formulas.get_for(name)
         if fn is None:
             raise formulaserror.NAME
-        result['value'] = fn(*args)
+        try:
+            result['value'] = fn(*args)
+        except formulaserror.XLError as e:
+            e.__traceback__ = None
+            result['value'] = e
 
         def valsetter(new_value):
             if new_value is not None:
